@@ -121,6 +121,28 @@ fn witness(ob: &str, f: &str, input: String, observed: String, required: &str) {
     println!("VERIF-WITNESS obligation={ob} fn={f} input={input} observed={observed} required={required}");
 }
 
+/// C02 through the resolver: the lovelace of the DISTINCT UTxOs the body spends equals the lovelace of its outputs plus the
+/// fee (the templates here neither mint lovelace nor withdraw or donate): a UTxO handed to two blocks is counted twice by the
+/// template's arithmetic but consumed once by the ledger.
+fn check_lovelace_preserved(input: &str, body: &primitives::TransactionBody, store: &[Utxo]) {
+    let mut seen = std::collections::BTreeSet::new();
+    let mut consumed: i128 = 0;
+    for i in body.inputs.iter() {
+        if !seen.insert((i.transaction_id.to_vec(), i.index)) { continue; }
+        match store.iter().find(|u| u.r#ref.txid == i.transaction_id.to_vec() && u.r#ref.index as u64 == i.index) {
+            Some(u) => consumed += u.assets.naked_amount().unwrap_or(0),
+            None => return,
+        }
+    }
+    let produced: i128 = body.outputs.iter().map(|o| match o {
+        primitives::TransactionOutput::PostAlonzo(o) => match &o.value { primitives::Value::Coin(c) => *c as i128, primitives::Value::Multiasset(c, _) => *c as i128 },
+        _ => 0,
+    }).sum::<i128>() + body.fee as i128;
+    if consumed != produced {
+        witness("c02_pipeline/resolve_tx#value-preserved", "resolve_tx", format!("{input} class=consumed-differs-from-produced"), format!("the distinct inputs hold {consumed} lovelace, outputs + fee are {produced}"), "consumed lovelace == produced lovelace + fee");
+    }
+}
+
 fn main() {
     vf_pipeline::start_watchdog(45);
     let mut cases = 0u64;
@@ -227,6 +249,7 @@ fn main() {
                 continue;
             };
             let body = &dec.transaction_body;
+            check_lovelace_preserved(&input, body, &store.0);
             let dup = |v: Vec<(Vec<u8>, u64)>| -> Option<(Vec<u8>, u64)> { let mut seen = std::collections::BTreeSet::new(); v.into_iter().find(|e| !seen.insert(e.clone())) };
             let as_pairs = |it: &mut dyn Iterator<Item = &primitives::TransactionInput>| -> Vec<(Vec<u8>, u64)> { it.map(|i| (i.transaction_id.to_vec(), i.index)).collect() };
             for (field, entries) in [
